@@ -1,6 +1,41 @@
 use crate::case::PropDef;
 pub mod c01;
+pub mod c02;
+pub mod c03;
+pub mod c04;
+pub mod c05;
+pub mod c06;
+pub mod c07;
+pub mod c08;
+pub mod c09;
+pub mod c10;
+pub mod c11;
+pub mod c12;
+pub mod c13;
+pub mod c28;
+pub mod workload;
+
+macro_rules! p {
+    ($id:expr, $m:ident) => {
+        PropDef { id: $id, cases: $m::cases, run: $m::run }
+    };
+}
 
 pub fn all() -> Vec<PropDef> {
-    vec![PropDef { id: "C01", cases: c01::cases, run: c01::run }]
+    vec![
+        p!("C01", c01),
+        p!("C02", c02),
+        p!("C03", c03),
+        p!("C04", c04),
+        p!("C05", c05),
+        p!("C06", c06),
+        p!("C07", c07),
+        p!("C08", c08),
+        p!("C09", c09),
+        p!("C10", c10),
+        p!("C11", c11),
+        p!("C12", c12),
+        p!("C13", c13),
+        p!("C28", c28),
+    ]
 }
